@@ -309,9 +309,16 @@ func (ex *Exec) evalSpec(e ast.Expr, info *types.Info, env *SpecEnv, pc *Term) V
 			idx := SignExtTo64(idxv.(IntV).T, info.Types[x.Index].Type)
 			return mkValue(b.Elem, func(sort, hint string) *Term { return SelectA(b.A, idx) }, "")
 		case GoArrV:
-			if it := idxv.(IntV).T; it.lit {
+			it := idxv.(IntV).T
+			if it.lit {
 				return b.E[it.val.Int64()]
 			}
+			// symbolic index into a small array: select by case distinction
+			var cur Value = b.E[len(b.E)-1]
+			for k := len(b.E) - 2; k >= 0; k-- {
+				cur = mergeSafe(Eq(it, BV(uint64(k), it.width)), b.E[k], cur)
+			}
+			return cur
 		case MapV:
 			return ex.specMapGet(b, idxv, info.Types[x.X].Type, env.st, false)
 		}
